@@ -184,7 +184,7 @@ func TestVerifC09Close(t *testing.T) {
 			rec.Count("answers_with_result", int(res.OkAnswer))
 			rec.Count("answers_with_error", int(res.ErrAns))
 			for _, p := range res.Panics {
-				rec.Violation("close-under-query/handler-panic", fmt.Sprintf("a handler panicked while the epoch it was reading was being closed: %s", p), a)
+				rec.Violation("close-under-query/crash-while-epoch-is-being-closed", fmt.Sprintf("a handler panicked while the epoch it was reading was being closed: %s", p), a)
 			}
 			if res.Reloads > 0 {
 				rec.Distinct(fmt.Sprintf("round-%d", round))
@@ -202,6 +202,6 @@ func TestVerifC09Close(t *testing.T) {
 			rec.Inconclusive("child set-up failed: " + r.Err)
 			continue
 		}
-		rec.Violation("close-under-query/process-death", fmt.Sprintf("the server process died while an epoch was being replaced under running queries:\n%.3000s", r.Output), a)
+		rec.Violation("close-under-query/crash-while-epoch-is-being-closed", fmt.Sprintf("the server process died while an epoch was being replaced under running queries:\n%.3000s", r.Output), a)
 	}
 }
